@@ -296,6 +296,50 @@ namespace
     }
   };
 
+  /// a local 'solver' that fails: writes 2*def and returns Status::aborted (to observe ignore_status)
+  struct FailingLocal : public Solver::SolverBase<LAFEM::DenseVector<double, Index>>
+  {
+    typedef LAFEM::DenseVector<double, Index> V;
+    virtual String name() const override { return "FailingLocal"; }
+    virtual Status apply(V& cor, const V& def) override { cor.scale(def, 2.0); return Status::aborted; }
+  };
+
+  /// ignore_status (by setter and from a PropertyMap section): a failing local solver gives Status::aborted, or - if ignored - success
+  /// with the synchronised and filtered correction
+  void schwarz_status_cases(verif::Ctx& c)
+  {
+    using namespace c08;
+    for(int path = 0; path < 2; ++path) for(int ign = 0; ign < 2; ++ign) for(int word = 0; word < 2; ++word)
+    {
+      if(!c.want()) continue;
+      const std::string where = std::string("Schwarz(failing local solver) ignore_status=") + std::to_string(ign) + (path ? " via PropertyMap" : " via set_ignore_status") + (word ? " (true/false)" : " (yes/no)");
+      c.desc([&]{ return where; });
+      c.nontrivial(verif::Hash().str("schwarz-status").pod(path).pod(ign).pod(word).get());
+      std::vector<char> fb(3, 0); fb[1] = 1;
+      Oracle orc; orc.init(3, 1, 0x3fu, 0, PCfg{K_JACOBI, 0, 1.0}, fb);
+      SchwarzBox box(orc);
+      auto local = std::make_shared<FailingLocal>();
+      if(path)
+      {
+        PropertyMap pm; pm.add_entry("ignore_status", word ? (ign ? "true" : "false") : (ign ? "yes" : "no"));
+        box.prec = Solver::new_schwarz_precond("verif", &pm, std::shared_ptr<Solver::SolverBase<SchwarzBox::Vec>>(local), box.gfil);
+      }
+      else
+      {
+        auto sw = Solver::new_schwarz_precond(std::shared_ptr<Solver::SolverBase<SchwarzBox::Vec>>(local), box.gfil);
+        sw->set_ignore_status(ign != 0);
+        box.prec = sw;
+      }
+      box.prec->init();
+      LVec d{1.0L, -0.5L, 0.25L};
+      Status st; bool unch;
+      std::vector<double> out = box.apply(d, std::nan(""), st, unch);
+      if(ign) c08b::chk(c, st == Status::success && out[0] == 2.0 && out[1] == 0.0 && out[2] == 0.5 && unch, "block.schwarz-ignore_status", [&]{ return where + ": expected success and the filtered correction"; });
+      else c08b::chk(c, st == Status::aborted && unch, "block.schwarz-ignore_status", [&]{ return where + ": expected Status::aborted"; });
+      box.prec->done();
+    }
+  }
+
   void schwarz_cases(verif::Ctx& c, int lc_depth)
   {
     using namespace c08;
@@ -380,5 +424,6 @@ int main(int argc, char** argv)
     uzawa_cases<2>(c, lc_depth);
     uzawa_global_cases(c, lc_depth);
     schwarz_cases(c, lc_depth);
+    schwarz_status_cases(c);
   });
 }
